@@ -32,6 +32,8 @@ pub enum FsOp {
     Append { path: String, content: String },
     Remove { path: String },
     Mkdir { path: String },
+    /// rewrite the file in place with other bytes of the same length and restore its time stamps
+    TamperKeepStat { path: String },
 }
 
 #[derive(Clone, Debug, Serialize, Deserialize, PartialEq)]
@@ -749,6 +751,8 @@ pub fn materialise(
     links_root: &Path,
     arrival_seed: u64,
     fired: Vec<String>,
+    fixed_mtime: bool,
+    decoy_root: Option<&Path>,
 ) -> std::io::Result<Materialised> {
     let mut order: Vec<usize> = (0..stored.len()).collect();
     crate::prng::Rng::stream(arrival_seed, "arrival").shuffle(&mut order);
@@ -763,6 +767,18 @@ pub fn materialise(
         if s.path == "@layout" {
             root_layout = refold(&s.state3, &s.bytes);
             root_layout_bytes = s.bytes.clone();
+            continue;
+        }
+        // "@decoy/..." is delivered to an unrelated directory that is no part of the world under
+        // verification (and of its ground truth)
+        if let Some(rest) = s.path.strip_prefix("@decoy/") {
+            if let Some(dr) = decoy_root {
+                let full = dr.join(rest);
+                if let Some(p) = full.parent() {
+                    std::fs::create_dir_all(p)?;
+                }
+                std::fs::write(&full, &s.bytes)?;
+            }
             continue;
         }
         let full = links_root.join(&s.path);
@@ -795,6 +811,16 @@ pub fn materialise(
             }
             _ => {
                 std::fs::write(&full, &s.bytes)?;
+                if fixed_mtime {
+                    // a transport that preserves time stamps (rsync -t, cp -p, tar x): every delivery of a
+                    // path carries the same mtime
+                    if let Ok(c) = std::ffi::CString::new(full.to_string_lossy().as_bytes()) {
+                        let ts = [libc::timespec { tv_sec: 1_600_000_000, tv_nsec: 0 }, libc::timespec { tv_sec: 1_600_000_000, tv_nsec: 0 }];
+                        unsafe {
+                            libc::utimensat(libc::AT_FDCWD, c.as_ptr(), ts.as_ptr(), 0);
+                        }
+                    }
+                }
                 FileTruth::Doc(refold(&s.state3, &s.bytes))
             }
         };
